@@ -41,5 +41,16 @@ ProbesAgree == (ph = 3 /\ InShard(body, f, SEED, NXCHECK)) =>
 
 Flags == <<f.k, body.k, r.k,
               IF r.k = "Point" THEN PosClass(r.p, body) ELSE IF r.k = "Segment" THEN PosClass(HMid(r.a, r.b), body) ELSE "-">>
-Emit == ph < 3 \/ PrintT(ToJson([a |-> f, b |-> body, s |-> S, exp |-> r, doc |-> DocKinds(f.k, body.k), cls |-> Flags, m |-> Measures(r)]))
+\* the exported helpers: the set of single-point hits of a segment on the faces and edges of a polyhedron / on the edges
+\* of a polygon (overlaps along a face or an edge contribute nothing), and the extreme pair of a collinear point list
+FacePolys(K) == { MkPolygon(fc.cyc, fc.n) : fc \in K.fs }
+EdgeSegs(cyc) == { MkSegment(cyc[i], cyc[IF i = Len(cyc) THEN 1 ELSE i + 1]) : i \in 1..Len(cyc) }
+BodyEdges(K) == IF K.k = "Polygon" THEN EdgeSegs(K.cyc) ELSE UNION { EdgeSegs(fc.cyc) : fc \in K.fs }
+PointHits(s, objs) == { Inter(s, o).p : o \in { o \in objs : Inter(s, o).k = "Point" } }
+Hits == IF f.k # "Segment" THEN {} ELSE IF body.k = "Polyhedron" THEN PointHits(f, FacePolys(body)) \cup PointHits(f, BodyEdges(body))
+        ELSE PointHits(f, BodyEdges(body))
+\* every hit is a point of both operands, and (polyhedron) a segment not lying in a face plane that crosses the boundary is found
+HitsSound == ph = 3 => \A P \in Hits : Mem(P, f) /\ Mem(P, body)
+Emit == ph < 3 \/ PrintT(ToJson([a |-> f, b |-> body, s |-> S, exp |-> r, doc |-> DocKinds(f.k, body.k), cls |-> Flags, m |-> Measures(r),
+                                    hits |-> IF f.k = "Segment" THEN [ok |-> TRUE, pts |-> Hits] ELSE [ok |-> FALSE, pts |-> {}]]))
 =============================================================================
